@@ -13,13 +13,15 @@ func fbb.errLine(str) (r)
   props C03
 
 func fbb.parseProposal(line, prop) (err)
-  props C03
+  props C03 C17
   requires cmd: len(line) >= 2
   requires prop: prop != nil
+  ensures nonneg-sizes: err == nil ==> (prop.compressedSize >= 0 || prop.compressedSize == old(prop.compressedSize)) && (prop.size >= 0 || prop.size == old(prop.size))
 
 func fbb.parseB2Proposal(line, prop) (err)
-  props C03
+  props C03 C17
   requires prop: prop != nil
+  ensures nonneg-sizes: err == nil ==> prop.compressedSize >= 0 && prop.size >= 0
 
 func fbb.parseProposalAnswer(str, props, l) (err)
   props C03
@@ -278,6 +280,7 @@ func fbb.(*Message).ReadFrom(m, r) (err)
 func fbb.(*Session).readCompressed(s, rw, p) (err)
   props C03 C04 C17
   requires sess: SessOK(s) && rw != nil && p != nil
+  requires size-nonneg: p.compressedSize >= 0
   # gPayloadBytes: payload bytes read from the wire inside STX blocks
   call bufio.(*Reader).ReadByte#4 set gPayloadBytes := gPayloadBytes + ite($r1 == nil, 1, 0)
   at return requires verdict-block: $r0 == nil ==> ourChecksum == 0 && p.compressedSize == gPayloadBytes && headerLength == actualHeaderLength && offset == p.offset
@@ -286,9 +289,70 @@ func fbb.(*Session).readCompressed(s, rw, p) (err)
   loop 0 invariant count: received == buf.len && buf.len == gPayloadBytes && buf.len >= 0 && 0 <= ourChecksum && ourChecksum < 256
   loop 1 invariant count: received == buf.len && buf.len == gPayloadBytes && buf.len >= 0 && 0 <= ourChecksum && ourChecksum < 256
 
+# writeCompressed (C01/C05 frame-emit, C02 sent-implies-written, C17)
+#   SOH, L, title, NUL, offset, NUL with L == len(title)+len(offset)+2 (and L fits one byte);
+#   then blocks STX, n, n payload bytes with 1 <= n <= MaxMsgLength that consume the data
+#   from the requested offset in order; then EOT and the two's complement of the payload
+#   byte sum, written only when all data is out; nil is returned only after the final flush.
+#   gRemainingOK: rely/guarantee for the status goroutine: 0 <= remaining <= len(data).
+ghost var gPayloadSum int
+ghost var gEOTWritten bool
+ghost var gFlushErr error
+
 func fbb.(*Session).writeCompressed(s, rw, p) (err)
-  props C03 C17
+  props C03 C17 C01 C05 C02
   requires sess: SessOK(s) && rw != nil && p != nil
+  call fmt.Sprintf#0 requires offset-text: $0 == "%d" && len($1) == 1 && unbox($1[0]) == p.offset
+  call fmt.Sprintf#0 assume decimal-int64: len($r0) <= 20
+  call mime.(WordEncoder).Encode#1 requires short-title: same($2, shortTitle) && (len(shortTitle) == 0 || len(mime.(WordEncoder).Encode($0, $1, shortTitle)) <= 80)
+  call bufio.(*Writer).Write#0 requires length-fits-byte: len(title) + len(offset) + 2 <= 255
+  call bufio.(*Writer).Write#0 requires soh-length: len($1) == 2 && $1[0] == 1 && $1[1] == len(title) + len(offset) + 2
+  call bufio.(*Writer).WriteString#0 requires title: same($1, title)
+  call bufio.(*Writer).WriteByte#0 requires nul: $1 == 0
+  call bufio.(*Writer).WriteString#1 requires offset: same($1, offset)
+  call bufio.(*Writer).WriteByte#1 requires nul: $1 == 0
+  call bytes.NewBuffer requires from-offset: $0.$ref == p.compressedData.$ref && $0.$off == p.compressedData.$off + p.offset && len($0) == len(p.compressedData) - p.offset
+  call bufio.(*Writer).Write#1 requires stx-n: len($1) == 2 && $1[0] == 2 && $1[1] == msgLen && 1 <= msgLen && msgLen <= 125 && msgLen <= buffer.len
+  call bytes.(*Buffer).ReadByte requires data-left: buffer.len >= 1
+  call bufio.(*Writer).WriteByte#2 requires payload-byte: $1 == c
+  call bufio.(*Writer).WriteByte#2 set gPayloadSum := gPayloadSum + $1
+  call bufio.(*Writer).Write#2 requires eot-checksum: len($1) == 2 && $1[0] == 4 && $1[1] == mod(0 - gPayloadSum, 256) && buffer.len == 0
+  call bufio.(*Writer).Write#2 set gEOTWritten := true
+  call bufio.(*Writer).Flush#2 set gFlushErr := $r0
+  at return requires sent-implies-written: $r0 == nil ==> gEOTWritten && gFlushErr == nil
+  loop 0 invariant shorten: 0 <= len(shortTitle)
+  loop 0 decreases len(shortTitle)
+  requires complete: p.compressedSize == len(p.compressedData)
+  loop 1 invariant guarantee-remaining: 0 <= remaining && remaining <= p.compressedSize
+  loop 1 invariant stream: remaining == buffer.len && buffer.len >= 0 && checksum == gPayloadSum && !gEOTWritten
+  loop 2 invariant guarantee-remaining: 0 <= remaining && remaining <= p.compressedSize
+  loop 2 invariant block: 0 <= i && i <= msgLen && remaining == buffer.len && buffer.len >= msgLen - i && checksum == gPayloadSum && !gEOTWritten && 1 <= msgLen && msgLen <= 125
+
+# C17: the status goroutines.  They share only atomically published counters with the
+# transfer (race-free obligations at the go statements); rely: the counter stays within
+# [0, compressedSize], which the transfer loops guarantee as loop invariants.
+func fbb.(*Session).writeCompressed$1() ()
+  props C17
+  requires shared: s != nil && p != nil && statusTicker != nil
+  call atomic.LoadInt64 assume rely-remaining: 0 <= $r0 && $r0 <= p.compressedSize
+  call fbb.StatusUpdater.UpdateStatus requires report-range: 0 <= $1.BytesTransferred && $1.BytesTransferred <= $1.BytesTotal && $1.BytesTotal == p.compressedSize && $1.Sending == p && $1.Receiving == nil
+  call fbb.StatusUpdater.UpdateStatus#0 requires periodic: !$1.Done
+  call fbb.StatusUpdater.UpdateStatus#1 requires final: $1.Done
+  at return requires done-reported: gDoneReports == 1 || s.statusUpdater == nil
+  call fbb.StatusUpdater.UpdateStatus#1 set gDoneReports := gDoneReports + 1
+  loop 0 invariant no-done-yet: gDoneReports == 0 && s != nil && p != nil && statusTicker != nil
+
+ghost var gDoneReports int
+
+func fbb.(*Session).readCompressed$1() ()
+  props C17
+  requires shared: s != nil && p != nil && p.compressedSize >= 0
+  call atomic.LoadInt64 assume rely-received: 0 <= $r0
+  call fbb.StatusUpdater.UpdateStatus requires report-range: 0 <= $1.BytesTransferred && $1.BytesTransferred <= $1.BytesTotal && $1.BytesTotal == p.compressedSize && $1.Receiving == p && $1.Sending == nil
+  call fbb.StatusUpdater.UpdateStatus requires done-iff-closed: $1.Done <==> !ok
+  call fbb.StatusUpdater.UpdateStatus set gDoneReports := gDoneReports + ite($1.Done, 1, 0)
+  at return requires done-reported: gDoneReports == 1 || s.statusUpdater == nil
+  loop 0 invariant no-done-yet: gDoneReports == 0 && s != nil && p != nil && p.compressedSize >= 0
 
 # the answer line: "FS " + exactly one byte per received proposal, that byte being the
 # proposal's answer; without a handler everything is deferred
@@ -340,8 +404,8 @@ func fbb.(*Session).handleInbound(s, rw) (quitReceived, err)
   call fbb.MBoxHandler.ProcessInbound set gFailed := gFailed || $r0 != nil
   at append#1 requires received-iff-processed: gProcessedOK != nil && gProcessedOK == prop && !gFailed
   at return requires error-propagates: gFailed ==> $r1 != nil
-  loop 0 invariant proposals: forall k :: 0 <= k && k < len(proposals) ==> proposals[k] != nil && proposals[k].answer == 0
-  loop 2 invariant delivering: (forall k :: 0 <= k && k < len(proposals) ==> proposals[k] != nil) && !gFailed && (s.h == nil ==> forall k :: 0 <= k && k < len(proposals) ==> proposals[k].answer != '+')
+  loop 0 invariant proposals: forall k :: 0 <= k && k < len(proposals) ==> proposals[k] != nil && proposals[k].answer == 0 && proposals[k].compressedSize >= 0
+  loop 2 invariant delivering: (forall k :: 0 <= k && k < len(proposals) ==> proposals[k] != nil && proposals[k].compressedSize >= 0) && !gFailed && (s.h == nil ==> forall k :: 0 <= k && k < len(proposals) ==> proposals[k].answer != '+')
 
 # byte sum of the first n bytes of a string
 smtdef bsum(Arr, Int, Int) Int := (define-fun-rec bsum ((a (Array Int Int)) (o Int) (n Int)) Int (ite (<= n 0) 0 (+ (bsum a o (- n 1)) (select a (+ o (- n 1))))))
